@@ -465,6 +465,12 @@ def parse(expression: str) -> XPathExpression:
         if e.position is None:
             e.position = 0
         raise e
+    except RecursionError:
+        raise XPathParsingError(
+            expression=expression,
+            position=0,
+            message="The expression is nested too deeply.",
+        )
 
 
 __all__ = ("parse",)
